@@ -218,3 +218,6 @@ func singleVararg(v ssa.Value) ssa.Value {
 	}
 	return elem
 }
+
+type pointerT = types.Pointer
+type arrayT = types.Array
